@@ -81,5 +81,9 @@ def gen(tier, rng):
     # "for IPv4, IPv6 and MAC ranges alike": claims of every family in the nodes' configuration, nested and overlapping
     yield nodegen.families_script(r, "node-families", 8 if thorough else 4)
     yield nodegen.mac_claims_script(r, "node-mac-claims", 6 if thorough else 3)
+    # "a cached decision is reused no longer than the switch timeout and never beyond the life of the claim": the two timeouts differ
+    yield nodegen.c10_script(r, "node-router-st7", 3, "router", "tun", 50 if thorough else 30, st=7, pt=300)
+    yield nodegen.c10_script(r, "node-switch-st5-pt40", 3, "switch", "tap", 50 if thorough else 30, st=5, pt=40)
+    yield nodegen.switch_timeout_script(r, "node-switch-timeout", pt=20, st=10)
 
 obs_class, nontrivial_key = _nodecommon.with_node(obs_class, nontrivial_key)
